@@ -39,6 +39,7 @@ static int fk_polls;			/* number of poll calls (runaway guard) */
 static int fk_maxpolls = 20000;
 /* A signal handler running while the loop is inside poll(2): armed by the driver for the next poll call.  1: the handler runs
  * as poll returns its (normal) answer; 2: if poll would have to sleep, it is interrupted instead (-1 / EINTR, no answer). */
+static int fk_clockfail, fk_clockfailed;	/* the fk_clockfail-th reading of the clock from now fails (EPERM); count of failures */
 static int fk_sig_armed;
 static void (*fk_sig_fn)(void);
 
@@ -294,6 +295,12 @@ __wrap_clock_gettime(clockid_t id, struct timespec * tp)
 {
 
 	(void)id;
+	/* a reading of the clock that fails (armed by the driver for the next reading) */
+	if (fk_clockfail > 0 && --fk_clockfail == 0) {
+		fk_clockfailed++;
+		errno = EPERM;
+		return (-1);
+	}
 	tp->tv_sec = (time_t)(fk_clock_us / 1000000);
 	tp->tv_nsec = (long)(fk_clock_us % 1000000) * 1000;
 	return (0);
